@@ -13,8 +13,9 @@ cfg("g_pinned", tsfix="FALSE")                                   # pinned tree: 
 cfg("g_fix2", claims=3, dup=1, release="TRUE")                   # 2 instances, re-claims, duplicates, releases
 cfg("g_fix2s", sh="{1, 2}", claims=3, dup=0, release="FALSE")    # 2 shards
 cfg("g_fix3", inst="{a, b, c}", claims=3, dup=1)                 # 3 instances
-cfg("g_leave", claims=2, snap=2, leave="TRUE", invs="LeftOwnNothing")   # known finding: merge after leave
-cfg("g_fix2_t", claims=4, dup=2, release="TRUE")
-cfg("g_fix3_t", inst="{a, b, c}", claims=4, dup=1, release="TRUE")
+cfg("g_leave", claims=2, snap=2, leave="TRUE", invs="LeftOwnNothing")
+cfg("g_leave_own", claims=3, dup=1, snap=1, leave="TRUE", release="TRUE")   # ownership clause with leaves   # known finding: merge after leave
+cfg("g_fix2_t", claims=4, dup=1, release="TRUE")
+cfg("g_fix3_t", inst="{a, b, c}", claims=3, dup=1, release="TRUE")
 cfg("sim_g", inst="{a, b, c}", sh="{1, 2}", claims=4, dup=2, snap=2, leave="TRUE", release="TRUE", depth=22)
 cfg("sim_g2", inst="{a, b}", sh="{1}", claims=3, dup=1, snap=2, leave="TRUE", release="TRUE", depth=16)
